@@ -161,7 +161,7 @@ def layouts_for_path(eng, ident, P, nb, maxn=6):
                     t = popcount_term(t)
                 if eng.check3() != 'sat':
                     raise sym.SolverUnknown("structure enumeration")
-                v = eng.solver.model().eval(t, model_completion=True)
+                v = eng.model().eval(t, model_completion=True)
                 if eng.check3(t != v) != 'unsat':
                     eng.solver.add(t == v)
                     conds.append(t == v)
@@ -544,7 +544,7 @@ def discharge(eng, claims, res, on_cex, label=""):
             res['discharged'] += 1
         elif r == 'sat':
             res['refuted'] += 1
-            on_cex(n, eng.solver.model(), f"{label}{n}")
+            on_cex(n, eng.model(), f"{label}{n}")
         else:
             res['inconclusive'].append(f"{label}{n}: solver unknown")
 
